@@ -1,2 +1,42 @@
-(* C02 -- placeholder until the theorems are in *)
-Definition placeholder_c02 := 0.
+(* C02 -- Tokenizer output equals the WHATWG tokenization (PARTIAL: see the end of this file). *)
+From Coq Require Import NArith List Bool Arith.
+From Verif Require Import Sx Str.
+From Verif.Gen Require Import Tokenizer.
+From Verif.Model Require Import TokBase TokHand C02.
+From Verif.Spec Require Import TokSpec.
+From Verif.Proofs Require Import C02a C02b C02dict.
+Import ListNotations.
+Local Open Scope N_scope.
+
+(* The model M_tok (Gen/Tokenizer.v, regenerated from _tokenizer.py on every run + Model/TokHand.v) makes
+   progress in EVERY state on EVERY input: a step either shortens the remaining input or keeps it and moves to a
+   state of strictly smaller rank ... *)
+Theorem c02_every_step_makes_progress : forall k k',
+  step k = (k', true) ->
+  (length (inp k') < length (inp k))%nat \/
+  (length (inp k') = length (inp k) /\ (rank (st k') < rank (st k))%nat).
+Proof. intros k k' H. pose proof (step_ok k) as Hok. rewrite H in Hok. exact (Hok eq_refl). Qed.
+
+(* ... hence the main loop  `while self.state(): ...`  terminates from every state, with every current token,
+   temporary buffer and input, within 4*|input|+8 state calls (no input makes the tokenizer loop) *)
+Theorem c02_tokenizer_terminates : forall s c t cd i, tokenize s c t cd i <> None.
+Proof. exact tokenize_total. Qed.
+
+(* emitCurrentToken's dict(raw) / update(raw[::-1]) trick is the standard's duplicate-attribute rule for EVERY
+   attribute list: each name keeps its first value, names stay in order of first occurrence *)
+Theorem c02_first_duplicate_wins : forall raw, py_attr_dict raw = first_wins [] raw.
+Proof. exact py_attr_dict_first_wins. Qed.
+
+(* non-vacuity, and the two machines side by side: <a B=1 b=2 c>x</A >&amp;<!--y--> in the data state *)
+Example c02_example :
+  let i := [60;97;32;66;61;49;32;98;61;50;32;99;62;120;60;47;65;32;62;38;97;109;112;59;60;33;45;45;121;45;45;62] in
+  option_map (fun k => coalesce (flat (rev (out k)))) (tokenize dataState CNone [] false i) =
+  option_map (fun k => coalesce (flat (rev (out k)))) (sp_tokenize dataState CNone [] false i) /\
+  option_map (fun k => coalesce (flat (rev (out k)))) (tokenize dataState CNone [] false i) =
+  Some [OStart [97] [([98], [49]); ([99], [])] false; OChars [120]; OEnd [97] [] false; OChars [38];
+        OComment [121]].
+Proof. vm_compute. split; reflexivity. Qed.
+
+(* PARTIAL.  The refinement theorem "flat (run M_tok) = run S_tok for every input and start configuration"
+   (Spec/TokSpec.v is the WHATWG machine) is not proved yet; until it is, the equality of the two machines is
+   decided by running both (and the implementation) on generated inputs on every check -- a test, not a proof. *)
